@@ -140,6 +140,7 @@ class FakeSerial:
 
     @property
     def in_waiting(self):
+        self.line.deliver_due(self.line.clock.t)
         return len(self.line.rx)
 
     def read(self, n):
@@ -150,8 +151,10 @@ class FakeSerial:
             ln.recv_error = False
             raise OSError("scripted receive failure")
         n = int(n or 0)
+        ln.deliver_due(ln.clock.t)
         if len(ln.rx) < n:
             ln.clock.sleep(self.timeout or 0.1)      # the port's read timeout elapses
+            ln.deliver_due(ln.clock.t)
         got = bytes(ln.rx[:n])
         del ln.rx[:n]
         ln.reads.append({"asked": n, "got": len(got)})
@@ -180,11 +183,15 @@ class Patches:
                 line.hook("connect")
             if not line.connect_ok:
                 raise OSError("scripted connect failure")
+            line.rx.clear()
+            del line.pending[:]          # a new connection is a new byte stream: nothing of the old one can arrive on it
             return FakeSocket(line)
 
         def fsocket(*a, **k):
             if not line.connect_ok:
                 raise OSError("scripted connect failure")
+            line.rx.clear()
+            del line.pending[:]
             return FakeSocket(line)
 
         def inet_pton(*a):
@@ -213,6 +220,8 @@ class Patches:
                 line.hook("connect")
             if not line.connect_ok:
                 raise serial.SerialException("scripted connect failure")
+            line.rx.clear()
+            del line.pending[:]          # re-opening the port flushes its buffers
             return FakeSerial(line, k.get("timeout", 1))
         for mod, name, val in ((CS, "socket", fsock), (CS, "select", fsel), (CS, "time", ftime), (TX, "time", ftime),
                                (RF, "time", ftime), (serial, "Serial", fserial)):
@@ -366,6 +375,9 @@ class Transaction:
                 add(tid, uid, rsp)
             elif o == "foreign":
                 add_stale()
+            elif o == "late":
+                # the reply is on its way but arrives only after the client has given up waiting
+                line.pending.append([self.clock.t + 30.0, frame(tid, uid, rsp)])
             elif o == "short":
                 full = frame(tid, uid, rsp)
                 out["rx"] = full[:rng.randint(1, len(full) - 1)]
